@@ -1,6 +1,6 @@
 (** C04 — zone-aware date-times: one instant, many wall clocks.  Lemmas and proofs. *)
 From Coq Require Import ZArith List Bool Lia ZifyBool String.
-From V Require Import Base.Int Base.IntLemmas Base.IO Gen.DateTimeConsts Gen.DateTables Spec.Gregorian.
+From V Require Import Base.Int Base.IntLemmas Base.IO Base.Lift Gen.DateTimeConsts Gen.DateTables Spec.Gregorian.
 From V Require Model.Date Model.Time.
 From V Require Import Model.DateTime Model.C04.
 Import ListNotations.
@@ -150,7 +150,8 @@ Proof. split; reflexivity. Qed.
 (** day number of a date word (total: [d_year]/[d_ordinal] are shifts and masks) *)
 Definition dn (d : Z) : Z := dn_of_yo (Date.d_year d) (Date.d_ordinal d).
 (** date words of the supported dates: the results of the checked constructor *)
-Definition nominal (d : Z) : Prop := exists y o, Date.from_yo_opt y o = Val (Some d).
+Definition nominal (d : Z) : Prop :=
+  exists y o, in_i32 y = true /\ in_u32 o = true /\ Date.from_yo_opt y o = Val (Some d).
 (** ... plus the two headroom dates *)
 Definition dateok (d : Z) : Prop := nominal d \/ d = Date.D_BEFORE_MIN \/ d = Date.D_AFTER_MAX.
 
@@ -169,9 +170,9 @@ Definition dtz_ok (a : dtz) : Prop := ndt_ok (dz_utc a) /\ off_ok (dz_off a).
 
 (** the range ends and the headroom dates, by computation *)
 Lemma nominal_MIN : nominal Date.D_MIN.
-Proof. exists (-262143), 1. vm_compute. reflexivity. Qed.
+Proof. exists (-262143), 1. vm_compute. repeat split; reflexivity. Qed.
 Lemma nominal_MAX : nominal Date.D_MAX.
-Proof. exists 262142, 365. vm_compute. reflexivity. Qed.
+Proof. exists 262142, 365. vm_compute. repeat split; reflexivity. Qed.
 Lemma dn_MIN : dn Date.D_MIN = DN_MIN. Proof. vm_compute. reflexivity. Qed.
 Lemma dn_MAX : dn Date.D_MAX = DN_MAX. Proof. vm_compute. reflexivity. Qed.
 Lemma dn_BEFORE_MIN : dn Date.D_BEFORE_MIN = DN_MIN - 1. Proof. vm_compute. reflexivity. Qed.
@@ -189,40 +190,49 @@ Lemma headroom_flags :
   Date.d_year Date.D_AFTER_MAX = MAX_YEAR + 1 /\ Date.d_ordinal Date.D_AFTER_MAX = 1.
 Proof. vm_compute. repeat split; reflexivity. Qed.
 
-(** all accessors on a date word agree with the calendar reading of its day number *)
-Definition acc_ok (d : Z) : Prop :=
+(** the accessors of a date word agree with the calendar reading of its day number *)
+Definition fields_ok (d : Z) : Prop :=
   let n := dn d in
   let '(y, m, dd) := ymd_of_dn n in
   Date.d_year d = y /\ Date.d_month d = Val m /\ Date.d_day d = Val dd /\
-  Date.d_ordinal d = ordinal_of_dn n /\ Date.d_weekday d = Val (weekday_of_dn n) /\
-  exists w, Date.d_iso_week d = Val w /\ (Date.iw_year w, Date.iw_week w) = iso_of_dn n.
-(** the same as a computable check *)
+  Date.d_ordinal d = ordinal_of_dn n /\ Date.d_weekday d = Val (weekday_of_dn n).
+Definition iso_ok (d : Z) : Prop :=
+  exists w, Date.d_iso_week d = Val w /\ (Date.iw_year w, Date.iw_week w) = iso_of_dn (dn d).
+(** the same as computable checks *)
 Definition rZ_is (r : R Z) (x : Z) : bool := match r with Val v => v =? x | _ => false end.
-Definition acc_okb (d : Z) : bool :=
+Definition fields_okb (d : Z) : bool :=
   let n := dn d in
   let '(y, m, dd) := ymd_of_dn n in
   (Date.d_year d =? y) && rZ_is (Date.d_month d) m && rZ_is (Date.d_day d) dd &&
-  (Date.d_ordinal d =? ordinal_of_dn n) && rZ_is (Date.d_weekday d) (weekday_of_dn n) &&
+  (Date.d_ordinal d =? ordinal_of_dn n) && rZ_is (Date.d_weekday d) (weekday_of_dn n).
+Definition iso_okb (d : Z) : bool :=
   match Date.d_iso_week d with
-  | Val w => (Date.iw_year w =? fst (iso_of_dn n)) && (Date.iw_week w =? snd (iso_of_dn n))
+  | Val w => (Date.iw_year w =? fst (iso_of_dn (dn d))) && (Date.iw_week w =? snd (iso_of_dn (dn d)))
   | _ => false
   end.
 Lemma rZ_is_true r x : rZ_is r x = true -> r = Val x.
 Proof. destruct r; cbn; try discriminate. intros H. apply Z.eqb_eq in H. subst. reflexivity. Qed.
-Lemma acc_okb_ok d : acc_okb d = true -> acc_ok d.
+Lemma fields_okb_ok d : fields_okb d = true -> fields_ok d.
 Proof.
-  unfold acc_okb, acc_ok. destruct (ymd_of_dn (dn d)) as [[y m] dd].
+  unfold fields_okb, fields_ok. destruct (ymd_of_dn (dn d)) as [[y m] dd].
   intros H. repeat (apply andb_prop in H; destruct H as [H ?]).
-  apply Z.eqb_eq in H. apply rZ_is_true in H4, H3, H1. apply Z.eqb_eq in H2.
-  repeat split; try assumption.
-  destruct (Date.d_iso_week d) as [w| |]; try discriminate.
-  exists w. split; [reflexivity|]. apply andb_prop in H0. destruct H0 as [Ha Hb].
+  apply Z.eqb_eq in H. apply rZ_is_true in H3, H2, H0. apply Z.eqb_eq in H1.
+  repeat split; assumption.
+Qed.
+Lemma iso_okb_ok d : iso_okb d = true -> iso_ok d.
+Proof.
+  unfold iso_okb, iso_ok. destruct (Date.d_iso_week d) as [w| |]; try discriminate.
+  intros H. exists w. split; [reflexivity|]. apply andb_prop in H. destruct H as [Ha Hb].
   apply Z.eqb_eq in Ha, Hb. rewrite Ha, Hb. destruct (iso_of_dn (dn d)); reflexivity.
 Qed.
-Lemma acc_BEFORE_MIN : acc_ok Date.D_BEFORE_MIN.
-Proof. apply acc_okb_ok. vm_compute. reflexivity. Qed.
-Lemma acc_AFTER_MAX : acc_ok Date.D_AFTER_MAX.
-Proof. apply acc_okb_ok. vm_compute. reflexivity. Qed.
+Lemma fields_BEFORE_MIN : fields_ok Date.D_BEFORE_MIN.
+Proof. apply fields_okb_ok. vm_compute. reflexivity. Qed.
+Lemma fields_AFTER_MAX : fields_ok Date.D_AFTER_MAX.
+Proof. apply fields_okb_ok. vm_compute. reflexivity. Qed.
+Lemma iso_BEFORE_MIN : iso_ok Date.D_BEFORE_MIN.
+Proof. apply iso_okb_ok. vm_compute. reflexivity. Qed.
+Lemma iso_AFTER_MAX : iso_ok Date.D_AFTER_MAX.
+Proof. apply iso_okb_ok. vm_compute. reflexivity. Qed.
 
 Lemma ndt_eta a : mk_ndt (nd_date a) (nd_time a) = a. Proof. destruct a. reflexivity. Qed.
 Lemma time_eta t : Time.mk_time (Time.tsecs t) (Time.tfrac t) = t. Proof. destruct t. reflexivity. Qed.
@@ -237,20 +247,168 @@ Qed.
 
 Ltac ulia := unfold DN_MIN, DN_MAX, TMIN, TMAX in *; lia.
 
+Lemma succ_AFTER_MAX : exists x, Date.succ_opt Date.D_AFTER_MAX = Val (Some x) /\ Date.D_MAX < x.
+Proof. eexists. split; [vm_compute; reflexivity|vm_compute; reflexivity]. Qed.
+Lemma pred_BEFORE_MIN : exists x, Date.pred_opt Date.D_BEFORE_MIN = Val (Some x) /\ x < Date.D_MIN.
+Proof. eexists. split; [vm_compute; reflexivity|vm_compute; reflexivity]. Qed.
+Lemma MIN_MAX_words : Date.D_BEFORE_MIN < Date.D_MIN /\ Date.D_MAX < Date.D_AFTER_MAX.
+Proof. vm_compute. split; reflexivity. Qed.
+
+
+(** * General lemmas (no calendar-core facts needed) *)
+Lemma cmpZ_spec x y : (x < y /\ cmpZ x y = -1) \/ (x = y /\ cmpZ x y = 0) \/ (x > y /\ cmpZ x y = 1).
+Proof.
+  unfold cmpZ. destruct (x ?= y) eqn:E.
+  - apply Z.compare_eq in E. auto.
+  - left. split; [apply Z.compare_lt_iff; exact E|reflexivity].
+  - right. right. split; [apply Z.compare_gt_iff in E; lia|reflexivity].
+Qed.
+
+Definition md_boundsb (leap : bool) (o : Z) : bool :=
+  let '(m, d) := md_of_ordinal leap o in (1 <=? m) && (m <=? 12) && (1 <=? d) && (d <=? 32).
+
+Lemma md_bounds leap o : 1 <= o <= 366 ->
+  let '(m, d) := md_of_ordinal leap o in 1 <= m <= 12 /\ 1 <= d <= 32.
+Proof.
+  intros Ho. assert (H : md_boundsb leap o = true).
+  { destruct leap.
+    - apply (forall_range_spec (md_boundsb true) 366 1); [vm_compute; reflexivity|lia].
+    - apply (forall_range_spec (md_boundsb false) 366 1); [vm_compute; reflexivity|lia]. }
+  unfold md_boundsb in H. destruct (md_of_ordinal leap o) as [m d]. lia.
+Qed.
+
+Lemma ordinal_bounds n : 1 <= ordinal_of_dn n <= 366.
+Proof.
+  unfold ordinal_of_dn, yo_of_dn. cbn [snd].
+  set (r3 := ((n - 1) mod 146097 - Z.min ((n - 1) mod 146097 / 36524) 3 * 36524) mod 1461).
+  assert (0 <= r3 < 1461) by (unfold r3; apply Z.mod_pos_bound; lia).
+  clearbody r3. destruct (Z.min_spec (r3 / 365) 3) as [[? ->]|[? ->]]; lia.
+Qed.
+
+Lemma ymd_bounds n : let '(y, m, d) := ymd_of_dn n in 1 <= m <= 12 /\ 1 <= d <= 32.
+Proof.
+  unfold ymd_of_dn. pose proof (ordinal_bounds n) as Ho. unfold ordinal_of_dn in Ho.
+  destruct (yo_of_dn n) as [y o]. cbn [snd] in Ho.
+  pose proof (md_bounds (is_leap y) o Ho) as Hm. destruct (md_of_ordinal (is_leap y) o). exact Hm.
+Qed.
+
+Lemma hms_spec t : time_ok t ->
+  Time.hour t = Time.tsecs t / 3600 /\ Time.minute t = Time.tsecs t / 60 mod 60 /\ Time.second t = Time.tsecs t mod 60.
+Proof.
+  intros [Hs _]. unfold Time.hour, Time.minute, Time.second, Time.hms, Time.udiv, Time.urem.
+  rewrite !Z.quot_div_nonneg, !Z.rem_mod_nonneg by lia. repeat split; lia.
+Qed.
+
+Lemma ndt_le_spec a b :
+  ndt_le a b = (nd_date a <? nd_date b) || ((nd_date a =? nd_date b) &&
+     ((Time.tsecs (nd_time a) <? Time.tsecs (nd_time b)) || ((Time.tsecs (nd_time a) =? Time.tsecs (nd_time b)) &&
+        (Time.tfrac (nd_time a) <=? Time.tfrac (nd_time b))))).
+Proof.
+  unfold ndt_le, ndt_cmp, cmp_lex.
+  destruct (cmpZ_spec (nd_date a) (nd_date b)) as [[C1 ->]|[[C1 ->]|[C1 ->]]];
+  destruct (cmpZ_spec (Time.tsecs (nd_time a)) (Time.tsecs (nd_time b))) as [[C2 ->]|[[C2 ->]|[C2 ->]]];
+  destruct (cmpZ_spec (Time.tfrac (nd_time a)) (Time.tfrac (nd_time b))) as [[C3 ->]|[[C3 ->]|[C3 ->]]];
+  cbn [Z.eqb]; lia.
+Qed.
+
+Lemma out_of_range_word x tm off : x < Date.D_MIN \/ Date.D_MAX < x ->
+  in_utc_range (mk_dtz (mk_ndt x tm) off) = false.
+Proof.
+  intros H. unfold in_utc_range. cbn [dz_utc]. rewrite !ndt_le_spec.
+  unfold NDT_MIN, NDT_MAX, T_MIN, T_MAX. cbn [nd_date nd_time Time.tsecs Time.tfrac]. lia.
+Qed.
+
+Definition new_time (field sod f x : Z) : option (Z * Z) :=
+  if field =? 7 then if x <? 24 then Some (x * 3600 + sod mod 3600, f) else None
+  else if field =? 8 then if x <? 60 then Some (sod / 3600 * 3600 + x * 60 + sod mod 60, f) else None
+  else if field =? 9 then if x <? 60 then Some (sod / 60 * 60 + x, f) else None
+  else if x <? 2000000000 then Some (sod, x) else None.
+
+Lemma ndt_with_time_spec field l x : 7 <= field <= 10 -> time_ok (nd_time l) -> in_u32 x = true ->
+  ndt_with field l x =
+  Val (match new_time field (Time.tsecs (nd_time l)) (Time.tfrac (nd_time l)) x with
+       | Some (s', f') => Some (mk_ndt (nd_date l) (Time.mk_time s' f'))
+       | None => None end) /\
+  match new_time field (Time.tsecs (nd_time l)) (Time.tfrac (nd_time l)) x with
+  | Some (s', f') => time_ok (Time.mk_time s' f')
+  | None => True end.
+Proof.
+  intros Hfld [Hs Hf] Hx. unfold ndt_with, new_time.
+  set (s := Time.tsecs (nd_time l)) in *. set (f := Time.tfrac (nd_time l)) in *.
+  replace (field =? 0) with false by lia. replace (field =? 1) with false by lia.
+  replace (field =? 2) with false by lia. replace (field =? 3) with false by lia.
+  replace (field =? 4) with false by lia. replace (field =? 5) with false by lia.
+  replace (field =? 6) with false by lia.
+  unfold in_u32, in_range, u32_max in Hx.
+  destruct (field =? 7) eqn:E7.
+  - unfold ndt_map_time, Time.with_hour, Time.urem. fold s f.
+    replace (x >=? 24) with (negb (x <? 24)) by lia.
+    destruct (x <? 24) eqn:Ex; cbn [negb]; unfold obind; cbv [bind]; [|split; [reflexivity|exact I]].
+    unfold mul_u32, add_u32, chk. replace (in_u32 (x * 3600)) with true by (symmetry; solve_in). cbv [bind].
+    rewrite Z.rem_mod_nonneg by lia.
+    replace (in_u32 (x * 3600 + s mod 3600)) with true by (symmetry; solve_in).
+    split; [reflexivity|]. unfold time_ok. cbn [Time.tsecs Time.tfrac]. lia.
+  - destruct (field =? 8) eqn:E8.
+    + unfold ndt_map_time, Time.with_minute, Time.urem, Time.udiv. fold s f.
+      replace (x >=? 60) with (negb (x <? 60)) by lia.
+      destruct (x <? 60) eqn:Ex; cbn [negb]; unfold obind; cbv [bind]; [|split; [reflexivity|exact I]].
+      rewrite Z.rem_mod_nonneg, Z.quot_div_nonneg by lia.
+      unfold mul_u32, add_u32, chk.
+      replace (in_u32 (s / 3600 * 3600)) with true by (symmetry; solve_in). cbv [bind].
+      replace (in_u32 (x * 60)) with true by (symmetry; solve_in). cbv [bind].
+      replace (in_u32 (s / 3600 * 3600 + x * 60)) with true by (symmetry; solve_in). cbv [bind].
+      replace (in_u32 (s / 3600 * 3600 + x * 60 + s mod 60)) with true by (symmetry; solve_in).
+      split; [reflexivity|]. unfold time_ok. cbn [Time.tsecs Time.tfrac]. lia.
+    + destruct (field =? 9) eqn:E9.
+      * unfold ndt_map_time, Time.with_second, Time.udiv. fold s f.
+        replace (x >=? 60) with (negb (x <? 60)) by lia.
+        destruct (x <? 60) eqn:Ex; cbn [negb]; unfold obind; cbv [bind]; [|split; [reflexivity|exact I]].
+        rewrite Z.quot_div_nonneg by lia.
+        unfold mul_u32, add_u32, chk.
+        replace (in_u32 (s / 60 * 60)) with true by (symmetry; solve_in). cbv [bind].
+        replace (in_u32 (s / 60 * 60 + x)) with true by (symmetry; solve_in).
+        split; [reflexivity|]. unfold time_ok. cbn [Time.tsecs Time.tfrac]. lia.
+      * replace (field =? 10) with true by lia.
+        unfold ndt_map_time, Time.with_nanosecond. fold s f.
+        replace (x >=? 2000000000) with (negb (x <? 2000000000)) by lia.
+        destruct (x <? 2000000000) eqn:Ex; cbn [negb]; unfold obind; cbv [bind]; [|split; [reflexivity|exact I]].
+        split; [reflexivity|]. unfold time_ok. cbn [Time.tsecs Time.tfrac]. lia.
+Qed.
+
+Lemma mlt_and_then_refilter (r : mlt dtz) (g : dtz -> bool) :
+  (r = MNone \/ exists x, r = MSingle x) ->
+  mlt_and_then r (fun x => if g x then Some x else None) =
+  match (match mlt_single r with Some x => if g x then Some x else None | None => None end) with
+  | Some x => MSingle x | None => MNone end.
+Proof. intros [->|[x ->]]; cbn; [reflexivity|]. destruct (g x); reflexivity. Qed.
+
+Lemma in_rng_days n r : 0 <= r < 86400 ->
+  in_rng (n * 86400 + r) = (DN_MIN <=? n) && (n <=? DN_MAX).
+Proof. intros Hr. unfold in_rng, TMIN, TMAX, DN_MIN, DN_MAX. lia. Qed.
+
+(** Facts about Model/Date.v that belong to C01 (to be proved there for the nominal dates): the day
+    number is an order embedding of the date words into [DN_MIN, DN_MAX], successor / predecessor
+    move the day number by one and fail exactly at the range ends, and the accessors read the
+    calendar fields of the day number.  Every theorem of the section below is an implication from
+    this one proposition. *)
+Definition date_facts : Prop :=
+  (forall d, nominal d -> DN_MIN <= dn d <= DN_MAX) /\
+  (forall d1 d2, nominal d1 -> nominal d2 -> (d1 < d2 <-> dn d1 < dn d2)) /\
+  (forall d, nominal d ->
+     if dn d <? DN_MAX then exists d', Date.succ_opt d = Val (Some d') /\ nominal d' /\ dn d' = dn d + 1
+     else Date.succ_opt d = Val None) /\
+  (forall d, nominal d ->
+     if DN_MIN <? dn d then exists d', Date.pred_opt d = Val (Some d') /\ nominal d' /\ dn d' = dn d - 1
+     else Date.pred_opt d = Val None) /\
+  (forall d, nominal d -> fields_ok d).
+
 Section ModuloDateTime.
-(** Facts about Model/Date.v that belong to C01 (proved there for the nominal dates): the day number
-    is an order embedding of the date words into [DN_MIN, DN_MAX], successor / predecessor move the
-    day number by one and fail exactly at the range ends, and the accessors read the calendar fields
-    of the day number. *)
-Hypothesis H_range : forall d, nominal d -> DN_MIN <= dn d <= DN_MAX.
-Hypothesis H_order : forall d1 d2, nominal d1 -> nominal d2 -> (d1 < d2 <-> dn d1 < dn d2).
-Hypothesis H_succ : forall d, nominal d ->
-  if dn d <? DN_MAX then exists d', Date.succ_opt d = Val (Some d') /\ nominal d' /\ dn d' = dn d + 1
-  else Date.succ_opt d = Val None.
-Hypothesis H_pred : forall d, nominal d ->
-  if DN_MIN <? dn d then exists d', Date.pred_opt d = Val (Some d') /\ nominal d' /\ dn d' = dn d - 1
-  else Date.pred_opt d = Val None.
-Hypothesis H_acc : forall d, nominal d -> acc_ok d.
+Hypothesis HD : date_facts.
+Let H_range := proj1 HD.
+Let H_order := proj1 (proj2 HD).
+Let H_succ := proj1 (proj2 (proj2 HD)).
+Let H_pred := proj1 (proj2 (proj2 (proj2 HD))).
+Let H_acc := proj2 (proj2 (proj2 (proj2 HD))).
 
 Lemma nominal_inj d1 d2 : nominal d1 -> nominal d2 -> dn d1 = dn d2 -> d1 = d2.
 Proof.
@@ -267,8 +425,8 @@ Proof.
   rewrite dn_MIN in *. rewrite dn_MAX in *. lia.
 Qed.
 
-Lemma dateok_acc d : dateok d -> acc_ok d.
-Proof. intros [H|[->| ->]]; [apply H_acc; exact H|apply acc_BEFORE_MIN|apply acc_AFTER_MAX]. Qed.
+Lemma dateok_fields d : dateok d -> fields_ok d.
+Proof. intros [H|[->| ->]]; [apply H_acc; exact H|apply fields_BEFORE_MIN|apply fields_AFTER_MAX]. Qed.
 Lemma dateok_range d : dateok d -> DN_MIN - 1 <= dn d <= DN_MAX + 1.
 Proof.
   intros [H|[->| ->]]; [pose proof (H_range d H); lia| rewrite dn_BEFORE_MIN; ulia|rewrite dn_AFTER_MAX; ulia].
@@ -338,9 +496,6 @@ Proof.
   unfold DN_MIN, DN_MAX in Hr. lia.
 Qed.
 
-Lemma in_rng_days n r : 0 <= r < 86400 ->
-  in_rng (n * 86400 + r) = (DN_MIN <=? n) && (n <=? DN_MAX).
-Proof. intros Hr. unfold in_rng, TMIN, TMAX, DN_MIN, DN_MAX. lia. Qed.
 
 Lemma ndt_checked_add_offset_spec a off : ndt_ok a -> off_ok off ->
   if in_rng (usecs a + off)
@@ -459,4 +614,503 @@ Qed.
 Theorem from_utc_then_local off u : ndt_ok u -> off_ok off ->
   dtz_ok (from_utc_datetime off u) /\ wall (from_utc_datetime off u) = usecs u + off.
 Proof. intros Hu Ho. split; [split; assumption|reflexivity]. Qed.
+
+(** * Equality and ordering are those of the instants (second count, fraction) *)
+
+Theorem cmp_is_instant_order a b : dtz_ok a -> dtz_ok b ->
+  dz_cmp a b = cmp_lex [usecs (dz_utc a); frac (dz_utc a)] [usecs (dz_utc b); frac (dz_utc b)] /\
+  (dz_eqb a b = true <-> usecs (dz_utc a) = usecs (dz_utc b) /\ frac (dz_utc a) = frac (dz_utc b)).
+Proof.
+  intros [[Hda [Hsa Hfa]] _] [[Hdb [Hsb Hfb]] _].
+  assert (Hc : dz_cmp a b = cmp_lex [usecs (dz_utc a); frac (dz_utc a)] [usecs (dz_utc b); frac (dz_utc b)]).
+  { unfold dz_cmp, ndt_cmp, cmp_lex, usecs, frac.
+    set (ua := dz_utc a) in *. set (ub := dz_utc b) in *.
+    pose proof (H_order _ _ Hda Hdb) as O1. pose proof (H_order _ _ Hdb Hda) as O2.
+    destruct (cmpZ_spec (nd_date ua) (nd_date ub)) as [[C1 ->]|[[C1 ->]|[C1 ->]]];
+    destruct (cmpZ_spec (Time.tsecs (nd_time ua)) (Time.tsecs (nd_time ub))) as [[C2 ->]|[[C2 ->]|[C2 ->]]];
+    destruct (cmpZ_spec (dn (nd_date ua) * 86400 + Time.tsecs (nd_time ua))
+                        (dn (nd_date ub) * 86400 + Time.tsecs (nd_time ub))) as [[C3 ->]|[[C3 ->]|[C3 ->]]];
+    cbn [Z.eqb]; try reflexivity; try (exfalso; rewrite ?C1 in *; lia). }
+  split; [exact Hc|].
+  rewrite (proj1 (eq_ord_hash_agree a b)), Hc. unfold cmp_lex.
+  destruct (cmpZ_spec (usecs (dz_utc a)) (usecs (dz_utc b))) as [[C1 ->]|[[C1 ->]|[C1 ->]]];
+  destruct (cmpZ_spec (frac (dz_utc a)) (frac (dz_utc b))) as [[C2 ->]|[[C2 ->]|[C2 ->]]];
+  cbn [Z.eqb]; lia.
+Qed.
+
+(** * Accessors read the wall clock (including the one-day headroom) *)
+
+
+(** every accessor returns the field of the wall clock W = UTC + offset *)
+Theorem accessors_wallclock a : dtz_ok a ->
+  let w := wall a in let n := w / 86400 in let sod := w mod 86400 in
+  let '(y, m, d) := ymd_of_dn n in
+  dz_year a = Val y /\ dz_month a = Val m /\ dz_month0 a = Val (m - 1) /\
+  dz_day a = Val d /\ dz_day0 a = Val (d - 1) /\
+  dz_ordinal a = Val (ordinal_of_dn n) /\ dz_ordinal0 a = Val (ordinal_of_dn n - 1) /\
+  dz_weekday a = Val (weekday_of_dn n) /\
+  dz_hour a = Val (sod / 3600) /\ dz_minute a = Val (sod / 60 mod 60) /\ dz_second a = Val (sod mod 60) /\
+  dz_nanosecond a = Val (frac (dz_utc a)).
+Proof.
+  intros Ha. destruct (overflowing_naive_local_spec a Ha) as [l [Hl [[Hd Ht] [Hu Hf]]]].
+  pose proof (dateok_fields _ Hd) as Hacc. unfold fields_ok in Hacc.
+  assert (Hn : dn (nd_date l) = wall a / 86400 /\ Time.tsecs (nd_time l) = wall a mod 86400).
+  { unfold usecs in Hu. destruct Ht as [Hs _]. lia. }
+  destruct Hn as [Hn Hsod]. rewrite Hn in Hacc.
+  pose proof (ymd_bounds (wall a / 86400)) as Hb. pose proof (ordinal_bounds (wall a / 86400)) as Hob.
+  cbv zeta. destruct (ymd_of_dn (wall a / 86400)) as [[y m] d].
+  destruct Hacc as [A1 [A2 [A3 [A4 A5]]]].
+  destruct (hms_spec _ Ht) as [T1 [T2 T3]].
+  unfold dz_year, dz_month, dz_month0, dz_day, dz_day0, dz_ordinal, dz_ordinal0, dz_weekday,
+    dz_hour, dz_minute, dz_second, dz_nanosecond, dz_get.
+  rewrite Hl. cbv [bind].
+  unfold ndt_year, ndt_month, ndt_month0, ndt_day, ndt_day0, ndt_ordinal, ndt_ordinal0, ndt_weekday,
+    ndt_hour, ndt_minute, ndt_second, ndt_nanosecond, Time.nanosecond.
+  rewrite A1, A2, A3, A4, A5, T1, T2, T3, Hsod. cbv [bind].
+  unfold sub_u32, chk.
+  replace (in_u32 (m - 1)) with true by (symmetry; solve_in).
+  replace (in_u32 (d - 1)) with true by (symmetry; solve_in).
+  replace (in_u32 (ordinal_of_dn (wall a / 86400) - 1)) with true by (symmetry; solve_in).
+  unfold frac in Hf. rewrite Hf. repeat split; reflexivity.
+Qed.
+
+(** ISO week of the wall clock, given the ISO-week lemma of the calendar core for nominal dates
+    (C01, not yet available); the two headroom dates are computed here *)
+Theorem iso_week_wallclock a : (forall d, nominal d -> iso_ok d) -> dtz_ok a ->
+  exists w, dz_iso_week a = Val w /\ (Date.iw_year w, Date.iw_week w) = iso_of_dn (wall a / 86400).
+Proof.
+  intros HI Ha. destruct (overflowing_naive_local_spec a Ha) as [l [Hl [[Hd Ht] [Hu Hf]]]].
+  assert (Hn : dn (nd_date l) = wall a / 86400).
+  { unfold usecs in Hu. destruct Ht as [Hs _]. lia. }
+  assert (Hiso : iso_ok (nd_date l)).
+  { destruct Hd as [H|[->| ->]]; [apply HI; exact H|apply iso_BEFORE_MIN|apply iso_AFTER_MAX]. }
+  destruct Hiso as [w [W1 W2]]. exists w. rewrite <- Hn. split; [|exact W2].
+  unfold dz_iso_week, dz_get. rewrite Hl. cbv [bind]. exact W1.
+Qed.
+
+(** * Re-resolution of a (possibly headroom) wall clock in the zone, range-filtered: the common tail
+      of map_local (all field setters), with_time (as repaired) and day stepping *)
+
+(** the one reading the filter refuses inside the second range: a leap fraction in the last second *)
+Definition leap_at_max (t f : Z) : bool := (t =? TMAX) && (1000000000 <=? f).
+Definition keep (t f : Z) : bool := in_rng t && negb (leap_at_max t f).
+
+Lemma in_utc_range_nominal u off : ndt_ok u ->
+  in_utc_range (mk_dtz u off) = negb (leap_at_max (usecs u) (frac u)).
+Proof.
+  intros [Hd [Hs Hf]]. unfold in_utc_range. cbn [dz_utc]. rewrite !ndt_le_spec.
+  unfold NDT_MIN, NDT_MAX, T_MIN, T_MAX. cbn [nd_date nd_time Time.tsecs Time.tfrac].
+  pose proof (nominal_bounds _ Hd) as Hb. pose proof (H_range _ Hd) as Hr.
+  pose proof (H_order _ _ Hd nominal_MAX) as O1. pose proof (H_order _ _ nominal_MAX Hd) as O2.
+  rewrite dn_MAX in O1, O2.
+  unfold leap_at_max, usecs, frac, TMAX. unfold DN_MAX in *.
+  set (d := nd_date u) in *. set (n := dn d) in *. clearbody n d.
+  destruct (Z.eq_dec d Date.D_MAX) as [E|E].
+  - assert (n = 95745399) by lia. lia.
+  - assert (n <> 95745399) by lia. lia.
+Qed.
+
+Definition refiltered (off : Z) (l' : ndt) : R (option dtz) :=
+  let* r := from_local_datetime off l' in
+  Val (match mlt_single r with Some x => if in_utc_range x then Some x else None | None => None end).
+
+
+(** classification of [from_local_datetime] on a wall clock whose date may be a headroom date:
+    inside the second range it is the exact value; outside it is either refused or a value whose UTC
+    date word lies outside [D_MIN, D_MAX] (which every range filter then removes) *)
+Definition escaped (off : Z) (r : mlt dtz) (below : bool) : Prop :=
+  r = MNone \/ exists x tm, r = MSingle (mk_dtz (mk_ndt x tm) off) /\
+                            if below then x < Date.D_MIN else Date.D_MAX < x.
+Lemma from_local_wide off l' : ndt_wide l' -> off_ok off ->
+  exists r, from_local_datetime off l' = Val r /\
+  ((in_rng (usecs l' - off) = true /\ exists z, r = MSingle z /\ dtz_ok z /\ dz_off z = off /\
+        usecs (dz_utc z) = usecs l' - off /\ frac (dz_utc z) = frac l') \/
+   (usecs l' - off < TMIN /\ escaped off r true) \/
+   (TMAX < usecs l' - off /\ escaped off r false)).
+Proof.
+  intros [Hd Ht] Ho.
+  destruct Hd as [Hd|Hd].
+  - pose proof (from_local_spec off l' (conj Hd Ht) Ho) as H.
+    destruct (in_rng (usecs l' - off)) eqn:E.
+    + destruct H as [z [H1 H2]]. exists (MSingle z). split; [exact H1|]. left. split; [reflexivity|].
+      exists z. split; [reflexivity|exact H2].
+    + exists MNone. split; [exact H|]. unfold in_rng in E.
+      destruct (Z_lt_dec (usecs l' - off) TMIN); [right; left|right; right]; (split; [lia|left; reflexivity]).
+  - destruct Ht as [Hs Hf]. assert (Ht : time_ok (nd_time l')) by (split; assumption).
+    unfold from_local_datetime, ndt_checked_sub_offset.
+    rewrite overflowing_sub_offset_spec by assumption. cbv [bind].
+    set (s := Time.tsecs (nd_time l')) in *.
+    pose proof (proj2 (offset_days_range s off Hs Ho)) as Hk.
+    assert (Hw : usecs l' - off = (dn (nd_date l') + (s - off) / 86400) * 86400 + (s - off) mod 86400).
+    { unfold usecs. fold s. lia. }
+    assert (Hm : 0 <= (s - off) mod 86400 < 86400) by (apply Z.mod_pos_bound; lia).
+    unfold shift_date_checked.
+    destruct Hd as [Hd|Hd]; rewrite Hd in *.
+    + (* BEFORE_MIN *)
+      rewrite dn_BEFORE_MIN in *.
+      destruct ((s - off) / 86400 =? -1) eqn:E1.
+      * destruct pred_BEFORE_MIN as [x [P1 P2]]. rewrite P1. unfold obind. cbv [bind].
+        eexists. split; [reflexivity|]. right. left. split; [ulia|]. right. eexists. eexists. split; [reflexivity|exact P2].
+      * destruct ((s - off) / 86400 =? 1) eqn:E2.
+        -- rewrite succ_BEFORE_MIN. unfold obind. cbv [bind].
+           eexists. split; [reflexivity|]. left. split; [unfold in_rng; ulia|].
+           eexists. split; [reflexivity|]. rewrite Hw. unfold dtz_ok, ndt_ok, time_ok, usecs, frac.
+           cbn [dz_utc dz_off nd_date nd_time Time.tsecs Time.tfrac]. rewrite dn_MIN.
+           repeat split; try apply nominal_MIN; try apply Ho; try ulia.
+        -- unfold obind. cbv [bind].
+           eexists. split; [reflexivity|]. right. left. split; [ulia|]. right. eexists. eexists.
+           split; [reflexivity|apply MIN_MAX_words].
+    + (* AFTER_MAX *)
+      rewrite dn_AFTER_MAX in *.
+      destruct ((s - off) / 86400 =? -1) eqn:E1.
+      * rewrite pred_AFTER_MAX. unfold obind. cbv [bind].
+        eexists. split; [reflexivity|]. left. split; [unfold in_rng; ulia|].
+        eexists. split; [reflexivity|]. rewrite Hw. unfold dtz_ok, ndt_ok, time_ok, usecs, frac.
+        cbn [dz_utc dz_off nd_date nd_time Time.tsecs Time.tfrac]. rewrite dn_MAX.
+        repeat split; try apply nominal_MAX; try apply Ho; try ulia.
+      * destruct ((s - off) / 86400 =? 1) eqn:E2.
+        -- destruct succ_AFTER_MAX as [x [P1 P2]]. rewrite P1. unfold obind. cbv [bind].
+           eexists. split; [reflexivity|]. right. right. split; [ulia|]. right. eexists. eexists. split; [reflexivity|exact P2].
+        -- unfold obind. cbv [bind].
+           eexists. split; [reflexivity|]. right. right. split; [ulia|]. right. eexists. eexists.
+           split; [reflexivity|apply MIN_MAX_words].
+Qed.
+
+Lemma refiltered_spec off l' : ndt_wide l' -> off_ok off ->
+  if keep (usecs l' - off) (frac l')
+  then exists z, refiltered off l' = Val (Some z) /\ dtz_ok z /\ dz_off z = off /\
+                 usecs (dz_utc z) = usecs l' - off /\ frac (dz_utc z) = frac l'
+  else refiltered off l' = Val None.
+Proof.
+  intros Hl Ho. unfold refiltered, keep.
+  destruct (from_local_wide off l' Hl Ho) as [r [Hr [[E [z [-> [Z1 [Z2 [Z3 Z4]]]]]]|[[E Hesc]|[E Hesc]]]]];
+    rewrite Hr; cbv [bind].
+  - rewrite E. cbn [andb mlt_single]. destruct z as [u o]. cbn [dz_utc dz_off] in *.
+    rewrite (in_utc_range_nominal u o (proj1 Z1)), Z3, Z4.
+    destruct (leap_at_max (usecs l' - off) (frac l')); cbn [negb]; [reflexivity|].
+    eexists. split; [reflexivity|]. cbn [dz_utc dz_off]. auto.
+  - replace (in_rng (usecs l' - off)) with false by (unfold in_rng; lia). cbn [andb].
+    destruct Hesc as [->|[x [tm [-> Hx]]]]; cbn [mlt_single]; [reflexivity|].
+    rewrite out_of_range_word by (left; exact Hx). reflexivity.
+  - replace (in_rng (usecs l' - off)) with false by (unfold in_rng; lia). cbn [andb].
+    destruct Hesc as [->|[x [tm [-> Hx]]]]; cbn [mlt_single]; [reflexivity|].
+    rewrite out_of_range_word by (right; exact Hx). reflexivity.
+Qed.
+
+(** ** map_local: every field setter *)
+Theorem map_local_some a f l l' : dtz_ok a -> overflowing_naive_local a = Val l ->
+  f l = Val (Some l') -> ndt_wide l' ->
+  if keep (usecs l' - dz_off a) (frac l')
+  then exists z, map_local a f = Val (Some z) /\ dtz_ok z /\ dz_off z = dz_off a /\
+                 usecs (dz_utc z) = usecs l' - dz_off a /\ frac (dz_utc z) = frac l'
+  else map_local a f = Val None.
+Proof.
+  intros Ha Hl Hf Hw. unfold map_local. rewrite Hl. cbv [bind]. unfold obind. rewrite Hf. cbv [bind].
+  exact (refiltered_spec (dz_off a) l' Hw (proj2 Ha)).
+Qed.
+Theorem map_local_none a f l : overflowing_naive_local a = Val l -> f l = Val None -> map_local a f = Val None.
+Proof. intros Hl Hf. unfold map_local. rewrite Hl. cbv [bind]. unfold obind. rewrite Hf. reflexivity. Qed.
+
+(** UTC -> wall clock -> UTC: re-resolving the unchanged wall clock gives the value back *)
+Lemma dtz_inj a b : dtz_ok a -> dtz_ok b -> dz_off a = dz_off b ->
+  usecs (dz_utc a) = usecs (dz_utc b) -> frac (dz_utc a) = frac (dz_utc b) -> a = b.
+Proof.
+  intros [Ha _] [Hb _] Ho Hu Hf. destruct a as [ua oa], b as [ub ob]. cbn [dz_utc dz_off] in *.
+  rewrite (ndt_wide_inj ua ub (ndt_ok_wide _ Ha) (ndt_ok_wide _ Hb) Hu Hf), Ho. reflexivity.
+Qed.
+Theorem utc_local_utc a l : dtz_ok a -> overflowing_naive_local a = Val l ->
+  from_local_datetime (dz_off a) l = Val (MSingle a).
+Proof.
+  intros Ha Hl. destruct (overflowing_naive_local_spec a Ha) as [l2 [Hl2 [Hw [Hu Hf]]]].
+  rewrite Hl in Hl2. inversion Hl2. subst l2. clear Hl2.
+  assert (Hus : usecs l - dz_off a = usecs (dz_utc a)) by (unfold wall in Hu; lia).
+  destruct (from_local_wide (dz_off a) l Hw (proj2 Ha)) as [r [Hr [[E [z [-> [Z1 [Z2 [Z3 Z4]]]]]]|[[E _]|[E _]]]]].
+  - rewrite Hr. f_equal. f_equal. apply dtz_inj; try assumption; [lia|]. rewrite Z4, Hf. reflexivity.
+  - pose proof (ndt_ok_range _ (proj1 Ha)) as Hin. unfold in_rng in Hin. lia.
+  - pose proof (ndt_ok_range _ (proj1 Ha)) as Hin. unfold in_rng in Hin. lia.
+Qed.
+
+(** ** with_time (as repaired in 6a10a33: the same range filter as map_local) *)
+
+Theorem with_time_spec a t : dtz_ok a -> time_ok t ->
+  let w' := wall a / 86400 * 86400 + Time.tsecs t in
+  if keep (w' - dz_off a) (Time.tfrac t)
+  then exists z, dz_with_time a t = Val (MSingle z) /\ dtz_ok z /\ dz_off z = dz_off a /\
+                 wall z = w' /\ frac (dz_utc z) = Time.tfrac t
+  else dz_with_time a t = Val MNone.
+Proof.
+  intros Ha Ht w'. destruct (overflowing_naive_local_spec a Ha) as [l [Hl [[Hd Htl] [Hu Hf]]]].
+  set (l' := mk_ndt (nd_date l) t).
+  assert (Hw : ndt_wide l') by (split; assumption).
+  assert (Hus : usecs l' = w').
+  { unfold w', usecs, l'. cbn [nd_date nd_time]. unfold usecs in Hu. destruct Htl as [Hs _]. lia. }
+  pose proof (refiltered_spec (dz_off a) l' Hw (proj2 Ha)) as H. rewrite Hus in H.
+  replace (frac l') with (Time.tfrac t) in H by reflexivity.
+  unfold dz_with_time. rewrite Hl. cbv [bind]. fold l'.
+  unfold refiltered in H.
+  destruct (from_local_wide (dz_off a) l' Hw (proj2 Ha)) as [r [Hr Hcl]].
+  rewrite Hr in *. cbv [bind] in *.
+  rewrite mlt_and_then_refilter.
+  2:{ unfold escaped in Hcl.
+      destruct Hcl as [[_ [z [-> _]]]|[[_ [->|[x [tm [-> _]]]]]|[_ [->|[x [tm [-> _]]]]]]];
+        first [left; reflexivity | right; eexists; reflexivity]. }
+  destruct (keep (w' - dz_off a) (Time.tfrac t)).
+  - destruct H as [z [H1 [H2 [H3 [H4 H5]]]]]. inversion H1 as [H1'].
+    exists z. split.
+    { destruct (mlt_single r) as [x|]; [destruct (in_utc_range x)|]; inversion H1'; reflexivity. }
+    repeat split; try assumption; try apply H2. unfold wall in *. rewrite H4, H3. lia.
+  - inversion H as [H'].
+    destruct (mlt_single r) as [x|]; [destruct (in_utc_range x)|]; try discriminate H'; reflexivity.
+Qed.
+
+(** ** replacing a time-of-day field of the wall clock (hour 7, minute 8, second 9, nanosecond 10) *)
+
+
+Theorem with_timefield_spec field a x : dtz_ok a -> 7 <= field <= 10 -> in_u32 x = true ->
+  match new_time field (wall a mod 86400) (frac (dz_utc a)) x with
+  | None => dz_with field a x = Val None
+  | Some (s', f') =>
+      let w' := wall a / 86400 * 86400 + s' in
+      if keep (w' - dz_off a) f'
+      then exists z, dz_with field a x = Val (Some z) /\ dtz_ok z /\ dz_off z = dz_off a /\
+                     wall z = w' /\ frac (dz_utc z) = f'
+      else dz_with field a x = Val None
+  end.
+Proof.
+  intros Ha Hfld Hx. destruct (overflowing_naive_local_spec a Ha) as [l [Hl [[Hd Htl] [Hu Hf]]]].
+  assert (Hn : dn (nd_date l) = wall a / 86400 /\ Time.tsecs (nd_time l) = wall a mod 86400).
+  { unfold usecs in Hu. destruct Htl as [Hs _]. lia. }
+  destruct Hn as [Hn Hsod].
+  destruct (ndt_with_time_spec field l x Hfld Htl Hx) as [Hw Hok].
+  unfold frac in Hf. rewrite Hsod, Hf in Hw, Hok. fold (frac (dz_utc a)) in Hw, Hok.
+  unfold dz_with. replace (field =? 0) with false by lia.
+  destruct (new_time field (wall a mod 86400) (frac (dz_utc a)) x) as [[s' f']|].
+  - cbv zeta.
+    set (l' := mk_ndt (nd_date l) (Time.mk_time s' f')).
+    assert (Hwd : ndt_wide l') by (split; assumption).
+    pose proof (map_local_some a (fun l0 => ndt_with field l0 x) l l' Ha Hl Hw Hwd) as H.
+    assert (Hus : usecs l' = wall a / 86400 * 86400 + s').
+    { unfold usecs, l'. cbn [nd_date nd_time Time.tsecs]. lia. }
+    rewrite Hus in H. replace (frac l') with f' in H by reflexivity.
+    destruct (keep (wall a / 86400 * 86400 + s' - dz_off a) f').
+    + destruct H as [z [H1 [H2 [H3 [H4 H5]]]]]. exists z. repeat split; try assumption; try apply H2.
+      unfold wall in *. rewrite H4, H3. lia.
+    + exact H.
+  - apply (map_local_none a _ l Hl Hw).
+Qed.
+
+(** ** replacing a date field / stepping by days or months: the DateTime layer on top of the
+      NaiveDate operation [g] (whose own correctness is C01/C08): the time of day is kept, the new
+      wall clock is re-resolved and range-filtered *)
+Theorem with_datefield_glue field a x l : dtz_ok a -> 1 <= field <= 6 ->
+  overflowing_naive_local a = Val l ->
+  match ndt_with field l x with
+  | Val None => dz_with field a x = Val None
+  | Val (Some l') =>
+      ndt_wide l' ->
+      if keep (usecs l' - dz_off a) (frac l')
+      then exists z, dz_with field a x = Val (Some z) /\ dtz_ok z /\ dz_off z = dz_off a /\
+                     wall z = usecs l' /\ frac (dz_utc z) = frac l'
+      else dz_with field a x = Val None
+  | _ => True
+  end.
+Proof.
+  intros Ha Hfld Hl. unfold dz_with. replace (field =? 0) with false by lia.
+  destruct (ndt_with field l x) as [[l'|]| |] eqn:E; try exact I.
+  - intros Hw. pose proof (map_local_some a (fun l0 => ndt_with field l0 x) l l' Ha Hl E Hw) as H.
+    destruct (keep (usecs l' - dz_off a) (frac l')).
+    + destruct H as [z [H1 [H2 [H3 [H4 H5]]]]]. exists z. repeat split; try assumption; try apply H2.
+      unfold wall in *. rewrite H4, H3. lia.
+    + exact H.
+  - apply (map_local_none a _ l Hl E).
+Qed.
+
+(** with_year: the unchanged year returns the value itself (also for a headroom wall clock) *)
+Theorem with_year_same a l : dtz_ok a -> overflowing_naive_local a = Val l ->
+  negb (leap_at_max (usecs (dz_utc a)) (frac (dz_utc a))) = true ->
+  dz_with 0 a (Date.d_year (nd_date l)) = Val (Some a).
+Proof.
+  intros Ha Hl Hnl. destruct (overflowing_naive_local_spec a Ha) as [l2 [Hl2 [Hw [Hu Hf]]]].
+  rewrite Hl in Hl2. inversion Hl2. subst l2. clear Hl2.
+  unfold dz_with. replace (0 =? 0) with true by reflexivity.
+  unfold map_local. rewrite Hl. cbv [bind]. unfold obind. rewrite Z.eqb_refl. cbv [bind].
+  rewrite (utc_local_utc a l Ha Hl). cbv [bind mlt_single].
+  destruct a as [u o]. cbn [dz_utc dz_off] in *.
+  rewrite (in_utc_range_nominal u o (proj1 Ha)), Hnl. reflexivity.
+Qed.
+
+(** day stepping: [n = 0] is the identity; otherwise the NaiveDate result is re-resolved; the
+    one-sided filters suffice because the step moves in one direction *)
+Lemma ndt_le_MIN u : ndt_ok u -> ndt_le NDT_MIN u = true.
+Proof.
+  intros [Hd [Hs Hf]]. rewrite ndt_le_spec. unfold NDT_MIN, T_MIN. cbn [nd_date nd_time Time.tsecs Time.tfrac].
+  pose proof (nominal_bounds _ Hd). lia.
+Qed.
+Lemma in_utc_range_split x : in_utc_range x = ndt_le NDT_MIN (dz_utc x) && ndt_le (dz_utc x) NDT_MAX.
+Proof. reflexivity. Qed.
+
+Theorem add_days_glue a n l d' : dtz_ok a -> n <> 0 -> overflowing_naive_local a = Val l ->
+  Date.checked_add_days (nd_date l) n = Val (Some d') -> dateok d' -> dn (nd_date l) <= dn d' ->
+  let w' := dn d' * 86400 + wall a mod 86400 in
+  if keep (w' - dz_off a) (frac (dz_utc a))
+  then exists z, dz_checked_add_days a n = Val (Some z) /\ dtz_ok z /\ dz_off z = dz_off a /\
+                 wall z = w' /\ frac (dz_utc z) = frac (dz_utc a)
+  else dz_checked_add_days a n = Val None.
+Proof.
+  intros Ha Hn Hl Hg Hd' Hmono w'.
+  destruct (overflowing_naive_local_spec a Ha) as [l2 [Hl2 [[Hd Htl] [Hu Hf]]]].
+  rewrite Hl in Hl2. inversion Hl2. subst l2. clear Hl2.
+  assert (Hsod : Time.tsecs (nd_time l) = wall a mod 86400 /\ dn (nd_date l) = wall a / 86400).
+  { unfold usecs in Hu. destruct Htl as [Hs _]. lia. }
+  destruct Hsod as [Hsod Hdn].
+  set (l' := mk_ndt d' (nd_time l)).
+  assert (Hw : ndt_wide l') by (split; assumption).
+  assert (Hus : usecs l' = w') by (unfold usecs, l', w'; cbn [nd_date nd_time]; lia).
+  unfold dz_checked_add_days. replace (n =? 0) with false by lia.
+  rewrite Hl. cbv [bind]. unfold ndt_checked_add_days, ndt_map_date, obind. rewrite Hg. cbv [bind]. fold l'.
+  pose proof (ndt_ok_range _ (proj1 Ha)) as Hin. unfold in_rng in Hin.
+  assert (Hlow : TMIN <= usecs l' - dz_off a).
+  { rewrite Hus. unfold w'. unfold wall in *. unfold usecs in Hu. lia. }
+  unfold keep. replace (frac l) with (frac l') in Hf by reflexivity.
+  destruct (from_local_wide (dz_off a) l' Hw (proj2 Ha)) as [r [Hr [[E [z [-> [Z1 [Z2 [Z3 Z4]]]]]]|[[E Hesc]|[E Hesc]]]]];
+    rewrite Hr; cbv [bind].
+  - rewrite <- Hus, E. cbn [andb mlt_single].
+    pose proof (in_utc_range_nominal (dz_utc z) (dz_off z) (proj1 Z1)) as Hir.
+    rewrite in_utc_range_split in Hir. cbn [dz_utc] in Hir. rewrite (ndt_le_MIN _ (proj1 Z1)) in Hir. cbn [andb] in Hir.
+    rewrite Hir, Z3, Z4, <- Hf.
+    destruct (leap_at_max (usecs l' - dz_off a) (frac l')); cbn [negb]; [reflexivity|].
+    exists z. repeat split; try assumption; try apply Z1. unfold wall in *. rewrite Z3, Z2. lia.
+  - lia.
+  - rewrite <- Hus. replace (in_rng (usecs l' - dz_off a)) with false by (unfold in_rng; lia). cbn [andb].
+    destruct Hesc as [->|[x [tm [-> Hx]]]]; cbn [mlt_single]; [reflexivity|]. cbn [dz_utc].
+    rewrite ndt_le_spec. unfold NDT_MAX. cbn [nd_date]. replace (x <? Date.D_MAX) with false by lia.
+    replace (x =? Date.D_MAX) with false by lia. reflexivity.
+Qed.
+Theorem add_days_zero a : dz_checked_add_days a 0 = Val (Some a).
+Proof. reflexivity. Qed.
+
+Theorem sub_days_glue a n l d' : dtz_ok a -> overflowing_naive_local a = Val l ->
+  Date.checked_sub_days (nd_date l) n = Val (Some d') -> dateok d' -> dn d' <= dn (nd_date l) ->
+  let w' := dn d' * 86400 + wall a mod 86400 in
+  if in_rng (w' - dz_off a)
+  then exists z, dz_checked_sub_days a n = Val (Some z) /\ dtz_ok z /\ dz_off z = dz_off a /\
+                 wall z = w' /\ frac (dz_utc z) = frac (dz_utc a)
+  else dz_checked_sub_days a n = Val None.
+Proof.
+  intros Ha Hl Hg Hd' Hmono w'.
+  destruct (overflowing_naive_local_spec a Ha) as [l2 [Hl2 [[Hd Htl] [Hu Hf]]]].
+  rewrite Hl in Hl2. inversion Hl2. subst l2. clear Hl2.
+  assert (Hsod : Time.tsecs (nd_time l) = wall a mod 86400 /\ dn (nd_date l) = wall a / 86400).
+  { unfold usecs in Hu. destruct Htl as [Hs _]. lia. }
+  destruct Hsod as [Hsod Hdn].
+  set (l' := mk_ndt d' (nd_time l)).
+  assert (Hw : ndt_wide l') by (split; assumption).
+  assert (Hus : usecs l' = w') by (unfold usecs, l', w'; cbn [nd_date nd_time]; lia).
+  unfold dz_checked_sub_days.
+  rewrite Hl. cbv [bind]. unfold ndt_checked_sub_days, ndt_map_date, obind. rewrite Hg. cbv [bind]. fold l'.
+  pose proof (ndt_ok_range _ (proj1 Ha)) as Hin. unfold in_rng in Hin.
+  assert (Hhigh : usecs l' - dz_off a <= TMAX).
+  { rewrite Hus. unfold w'. unfold wall in *. unfold usecs in Hu. lia. }
+  replace (frac l) with (frac l') in Hf by reflexivity.
+  destruct (from_local_wide (dz_off a) l' Hw (proj2 Ha)) as [r [Hr [[E [z [-> [Z1 [Z2 [Z3 Z4]]]]]]|[[E Hesc]|[E Hesc]]]]];
+    rewrite Hr; cbv [bind].
+  - rewrite <- Hus, E. cbn [mlt_single]. rewrite (ndt_le_MIN _ (proj1 Z1)).
+    exists z. repeat split; try assumption; try apply Z1; [unfold wall in *; rewrite Z3, Z2; lia|]. rewrite Z4, <- Hf. reflexivity.
+  - rewrite <- Hus. replace (in_rng (usecs l' - dz_off a)) with false by (unfold in_rng; lia).
+    destruct Hesc as [->|[x [tm [-> Hx]]]]; cbn [mlt_single]; [reflexivity|]. cbn [dz_utc].
+    rewrite ndt_le_spec. unfold NDT_MIN. cbn [nd_date]. replace (Date.D_MIN <? x) with false by lia.
+    replace (Date.D_MIN =? x) with false by lia. reflexivity.
+  - lia.
+Qed.
+
+(** month stepping has no filter of its own: it is safe because the NaiveDate operation returns
+    either the unchanged date (zero months: the value itself comes back) or a nominal date (for which
+    from_local_datetime is exact) — a headroom date can never be re-resolved unfiltered *)
+Theorem months_glue (g : Z -> Z -> R (option Z)) a m l d' : dtz_ok a -> overflowing_naive_local a = Val l ->
+  g (nd_date l) m = Val (Some d') -> nominal d' \/ d' = nd_date l ->
+  let step := (let* l0 := overflowing_naive_local a in
+               let? l1 := ndt_map_date l0 (g (nd_date l0) m) in
+               let* r := from_local_datetime (dz_off a) l1 in Val (mlt_single r)) in
+  let w' := dn d' * 86400 + wall a mod 86400 in
+  if in_rng (w' - dz_off a)
+  then exists z, step = Val (Some z) /\ dtz_ok z /\ dz_off z = dz_off a /\
+                 wall z = w' /\ frac (dz_utc z) = frac (dz_utc a)
+  else step = Val None.
+Proof.
+  intros Ha Hl Hg Hd' step w'.
+  destruct (overflowing_naive_local_spec a Ha) as [l2 [Hl2 [[Hd Htl] [Hu Hf]]]].
+  rewrite Hl in Hl2. inversion Hl2. subst l2. clear Hl2.
+  assert (Hsod : Time.tsecs (nd_time l) = wall a mod 86400 /\ dn (nd_date l) = wall a / 86400).
+  { unfold usecs in Hu. destruct Htl as [Hs _]. lia. }
+  destruct Hsod as [Hsod Hdn].
+  unfold step. rewrite Hl. cbv [bind]. unfold ndt_map_date, obind. rewrite Hg. cbv [bind].
+  destruct Hd' as [Hd'|Hd'].
+  - set (l' := mk_ndt d' (nd_time l)).
+    assert (Hok : ndt_ok l') by (split; assumption).
+    assert (Hus : usecs l' = w') by (unfold usecs, l', w'; cbn [nd_date nd_time]; lia).
+    pose proof (from_local_spec (dz_off a) l' Hok (proj2 Ha)) as H. rewrite Hus in H.
+    destruct (in_rng (w' - dz_off a)).
+    + destruct H as [z [H1 [H2 [H3 [H4 H5]]]]]. rewrite H1. cbv [bind mlt_single].
+      exists z. repeat split; try assumption; try apply H2; [unfold wall in *; rewrite H4, H3; lia|].
+      rewrite H5. exact Hf.
+    + rewrite H. reflexivity.
+  - subst d'. rewrite ndt_eta. rewrite (utc_local_utc a l Ha Hl). cbv [bind mlt_single].
+    assert (Hw' : w' = wall a) by (unfold w'; lia).
+    assert (Hin : in_rng (w' - dz_off a) = true).
+    { rewrite Hw'. unfold wall. replace (usecs (dz_utc a) + dz_off a - dz_off a) with (usecs (dz_utc a)) by lia.
+      apply ndt_ok_range. apply Ha. }
+    rewrite Hin. exists a. repeat split; try apply Ha; [symmetry; exact Hw'].
+Qed.
+
+Theorem add_months_glue a m l d' : dtz_ok a -> overflowing_naive_local a = Val l ->
+  Date.checked_add_months (nd_date l) m = Val (Some d') -> nominal d' \/ d' = nd_date l ->
+  let w' := dn d' * 86400 + wall a mod 86400 in
+  if in_rng (w' - dz_off a)
+  then exists z, dz_checked_add_months a m = Val (Some z) /\ dtz_ok z /\ dz_off z = dz_off a /\
+                 wall z = w' /\ frac (dz_utc z) = frac (dz_utc a)
+  else dz_checked_add_months a m = Val None.
+Proof. exact (months_glue Date.checked_add_months a m l d'). Qed.
+Theorem sub_months_glue a m l d' : dtz_ok a -> overflowing_naive_local a = Val l ->
+  Date.checked_sub_months (nd_date l) m = Val (Some d') -> nominal d' \/ d' = nd_date l ->
+  let w' := dn d' * 86400 + wall a mod 86400 in
+  if in_rng (w' - dz_off a)
+  then exists z, dz_checked_sub_months a m = Val (Some z) /\ dtz_ok z /\ dz_off z = dz_off a /\
+                 wall z = w' /\ frac (dz_utc z) = frac (dz_utc a)
+  else dz_checked_sub_months a m = Val None.
+Proof. exact (months_glue Date.checked_sub_months a m l d'). Qed.
+Theorem months_zero a : dtz_ok a ->
+  dz_checked_add_months a 0 = Val (Some a) /\ dz_checked_sub_months a 0 = Val (Some a).
+Proof.
+  intros Ha. destruct (overflowing_naive_local_spec a Ha) as [l [Hl _]].
+  unfold dz_checked_add_months, dz_checked_sub_months. rewrite Hl. cbv [bind].
+  unfold ndt_checked_add_months, ndt_checked_sub_months, ndt_map_date, Date.checked_add_months, Date.checked_sub_months, obind.
+  rewrite Z.eqb_refl. cbv [bind]. rewrite ndt_eta, (utc_local_utc a l Ha Hl). split; reflexivity.
+Qed.
+
+(** with_ymd_and_hms: the constructors' results (C01: date, C07: time) are re-resolved as a wall clock *)
+Theorem ymdhms_glue off y m d h mi s dd t : off_ok off ->
+  Date.from_ymd_opt y m d = Val (Some dd) -> nominal dd -> Time.from_hms_opt h mi s = Val (Some t) -> time_ok t ->
+  let w := dn dd * 86400 + Time.tsecs t in
+  if in_rng (w - off)
+  then exists z, with_ymd_and_hms off y m d h mi s = Val (MSingle z) /\ dtz_ok z /\ dz_off z = off /\
+                 wall z = w /\ frac (dz_utc z) = Time.tfrac t
+  else with_ymd_and_hms off y m d h mi s = Val MNone.
+Proof.
+  intros Ho Hd Hn Ht Hok w. unfold with_ymd_and_hms. rewrite Hd. cbv [bind]. rewrite Ht. cbv [bind].
+  pose proof (from_local_spec off (mk_ndt dd t) (conj Hn Hok) Ho) as H.
+  replace (usecs (mk_ndt dd t)) with w in H by reflexivity.
+  destruct (in_rng (w - off)).
+  - destruct H as [z [H1 [H2 [H3 [H4 H5]]]]]. exists z. repeat split; try assumption; try apply H2.
+    unfold wall. rewrite H4, H3. lia.
+  - exact H.
+Qed.
+Theorem ymdhms_invalid off y m d h mi s :
+  (Date.from_ymd_opt y m d = Val None \/
+   exists dd, Date.from_ymd_opt y m d = Val (Some dd) /\ Time.from_hms_opt h mi s = Val None) ->
+  with_ymd_and_hms off y m d h mi s = Val MNone.
+Proof.
+  intros [H|[dd [H1 H2]]]; unfold with_ymd_and_hms.
+  - rewrite H. reflexivity.
+  - rewrite H1. cbv [bind]. rewrite H2. reflexivity.
+Qed.
 End ModuloDateTime.
